@@ -426,7 +426,11 @@ func (E *Engine) strLen(s *Term) *Term {
 	if E.tb.useStrings {
 		return E.tb.App("str.len", SInt, s)
 	}
-	return E.tb.UF("strlen", SInt, s)
+	tb := E.tb
+	tb.DeclFunc("strlen", []Sort{"Str"}, SInt)
+	x := tb.BVar("s", "Str")
+	tb.AddAxiom("strlen-range", tb.Forall([]*Term{x}, tb.And(tb.Cmp("<=", tb.Int(0), tb.App("strlen", SInt, x)), tb.Cmp("<=", tb.App("strlen", SInt, x), tb.IntStr("9223372036854775807")))), "strlen")
+	return tb.UF("strlen", SInt, s)
 }
 
 func (E *Engine) strConcat(a, b *Term) *Term {
@@ -505,10 +509,8 @@ func (E *Engine) wellTyped(v *Term, t types.Type, env TEnv) *Term {
 		return tb.And(tb.Cmp(">=", E.ifcTag(v), tb.Int(0)), tb.Implies(tb.Eq(E.ifcTag(v), tb.Int(0)), tb.Eq(E.ifcVal(v), E.null())))
 	}
 	if v.sort == E.strSort() {
-		if tb.useStrings {
-			return tb.Cmp("<=", E.strLen(v), tb.IntStr("9223372036854775807"))
-		}
-		return tb.And(tb.Cmp("<=", tb.Int(0), E.strLen(v)), tb.Cmp("<=", E.strLen(v), tb.IntStr("9223372036854775807")))
+		// lengths of strings are in range: a global axiom in UF mode (see strLen), built in otherwise
+		return tb.True()
 	}
 	return tb.True()
 }
